@@ -56,31 +56,55 @@ func c32FlowStats(f *types.Flow) [7]int64 {
 	return [7]int64{f.PacketsIn, f.PacketsOut, f.BytesIn, f.BytesOut, f.NumConnectionsStarted, f.NumConnectionsCompleted, f.NumConnectionsLive}
 }
 
-type c32KeyDef struct {
-	key    *types.FlowKey
+type c32Hit struct {
 	policy string
 	action proto.Action
 }
 
+type c32KeyDef struct {
+	key  *types.FlowKey
+	hits []c32Hit // distinct policies this key's enforced + pending traces hit, each with its action
+}
+
+// c32Keys: 4 flow keys.  k0/k1 hit a single policy (allow / deny).  k2/k3 come through a tiered trace:
+// policy "pz" in tier "sec" passes to the next tier, where "p1" allows; k3 additionally carries a pending
+// trace (the same pass hit, then a staged policy "stg" that would deny).
 func c32Keys() []c32KeyDef {
-	mk := func(src, dst, dns string, rep proto.Reporter, act proto.Action, pol string) c32KeyDef {
+	hit := func(kind proto.PolicyKind, tier, name string, act proto.Action, idx int64) *proto.PolicyHit {
+		return &proto.PolicyHit{Kind: kind, Namespace: "ns1", Name: name, Tier: tier, Action: act, PolicyIndex: idx}
+	}
+	cnp := proto.PolicyKind_CalicoNetworkPolicy
+	mk := func(src, dst, dns string, rep proto.Reporter, act proto.Action, trace *proto.PolicyTrace, hits ...c32Hit) c32KeyDef {
 		k := types.NewFlowKey(
 			&types.FlowKeySource{SourceName: src, SourceNamespace: "ns1", SourceType: proto.EndpointType_WorkloadEndpoint},
 			&types.FlowKeyDestination{DestName: dst, DestNamespace: dns, DestType: proto.EndpointType_WorkloadEndpoint, DestPort: 80},
 			&types.FlowKeyMeta{Proto: "tcp", Reporter: rep, Action: act},
-			&proto.PolicyTrace{EnforcedPolicies: []*proto.PolicyHit{{
-				Kind: proto.PolicyKind_CalicoNetworkPolicy, Namespace: "ns1", Name: pol, Tier: "default", Action: act,
-			}}},
+			trace,
 		)
-		return c32KeyDef{key: k, policy: pol, action: act}
+		return c32KeyDef{key: k, hits: hits}
 	}
 	return []c32KeyDef{
-		mk("src-a", "dst-a", "ns1", proto.Reporter_Dst, proto.Action_Allow, "p0"),
-		mk("src-b", "dst-a", "ns1", proto.Reporter_Src, proto.Action_Deny, "p0"),
-		mk("src-a", "dst-b", "ns2", proto.Reporter_Dst, proto.Action_Allow, "p1"),
-		mk("src-c", "dst-c", "ns2", proto.Reporter_Src, proto.Action_Allow, "p1"),
+		mk("src-a", "dst-a", "ns1", proto.Reporter_Dst, proto.Action_Allow,
+			&proto.PolicyTrace{EnforcedPolicies: []*proto.PolicyHit{hit(cnp, "default", "p0", proto.Action_Allow, 0)}},
+			c32Hit{"p0", proto.Action_Allow}),
+		mk("src-b", "dst-a", "ns1", proto.Reporter_Src, proto.Action_Deny,
+			&proto.PolicyTrace{EnforcedPolicies: []*proto.PolicyHit{hit(cnp, "default", "p0", proto.Action_Deny, 0)}},
+			c32Hit{"p0", proto.Action_Deny}),
+		mk("src-a", "dst-b", "ns2", proto.Reporter_Dst, proto.Action_Allow,
+			&proto.PolicyTrace{EnforcedPolicies: []*proto.PolicyHit{
+				hit(cnp, "sec", "pz", proto.Action_Pass, 0), hit(cnp, "default", "p1", proto.Action_Allow, 1)}},
+			c32Hit{"pz", proto.Action_Pass}, c32Hit{"p1", proto.Action_Allow}),
+		mk("src-c", "dst-c", "ns2", proto.Reporter_Src, proto.Action_Allow,
+			&proto.PolicyTrace{
+				EnforcedPolicies: []*proto.PolicyHit{
+					hit(cnp, "sec", "pz", proto.Action_Pass, 0), hit(cnp, "default", "p1", proto.Action_Allow, 1)},
+				PendingPolicies: []*proto.PolicyHit{
+					hit(cnp, "sec", "pz", proto.Action_Pass, 0), hit(proto.PolicyKind_StagedNetworkPolicy, "default", "stg", proto.Action_Deny, 1)}},
+			c32Hit{"pz", proto.Action_Pass}, c32Hit{"p1", proto.Action_Allow}, c32Hit{"stg", proto.Action_Deny}),
 	}
 }
+
+var c32Policies = []string{"p0", "p1", "pz", "stg"}
 
 type c32Sink struct{ got []*storage.FlowCollection }
 
@@ -215,10 +239,12 @@ func (m *c32Model) checkFlows(t *rapid.T, what string, flows []*types.Flow, inne
 	}
 }
 
-type c32PolAgg struct{ allow, deny int64 }
+type c32PolAgg struct{ allow, deny, pass int64 }
 
-// polSums aggregates per policy name, by action: total packets in+out (PacketCount), bytes in+out
-// (ByteCount) or live connections (LiveConnectionCount).
+func (a c32PolAgg) zero() bool { return a == c32PolAgg{} }
+
+// polSums aggregates per policy name, by the action of the key's hit on that policy: total packets in+out
+// (PacketCount), bytes in+out (ByteCount) or live connections (LiveConnectionCount).
 func (m *c32Model) polSums(per map[int]c32Sums, typ proto.StatisticType) map[string]c32PolAgg {
 	out := map[string]c32PolAgg{}
 	for ki, s := range per {
@@ -231,13 +257,18 @@ func (m *c32Model) polSums(per map[int]c32Sums, typ proto.StatisticType) map[str
 		case proto.StatisticType_LiveConnectionCount:
 			v = s.Live
 		}
-		a := out[m.keys[ki].policy]
-		if m.keys[ki].action == proto.Action_Allow {
-			a.allow += v
-		} else {
-			a.deny += v
+		for _, h := range m.keys[ki].hits {
+			a := out[h.policy]
+			switch h.action {
+			case proto.Action_Allow:
+				a.allow += v
+			case proto.Action_Deny:
+				a.deny += v
+			case proto.Action_Pass:
+				a.pass += v
+			}
+			out[h.policy] = a
 		}
-		out[m.keys[ki].policy] = a
 	}
 	return out
 }
@@ -251,48 +282,101 @@ func c32At(xs []int64, i int) int64 {
 
 var c32StatTypes = []proto.StatisticType{proto.StatisticType_PacketCount, proto.StatisticType_ByteCount, proto.StatisticType_LiveConnectionCount}
 
+var c32SlotNames = [6]string{"AllowedIn", "AllowedOut", "DeniedIn", "DeniedOut", "PassedIn", "PassedOut"}
+
+func c32Slots(r *proto.StatisticsResult) [6][]int64 {
+	return [6][]int64{r.AllowedIn, r.AllowedOut, r.DeniedIn, r.DeniedOut, r.PassedIn, r.PassedOut}
+}
+
+// checkStats issues the Statistics query both aggregated and as a time series for the same range, type and
+// grouping, and checks
+//   - time series: one point per bucket, each equal to that bucket's model sums (allowed / denied / passed
+//     totals, in+out) — "counted in exactly one time bucket";
+//   - aggregated: allowed / denied / passed totals equal the model sums over the range (sandwich for
+//     unaligned bounds);
+//   - aggregated == element-wise sum of the time series for each of the six result slots separately (the two
+//     answers are sums of the same accepted flows over the same buckets, whatever the in/out convention).
+// `series` only selects which of the two is issued first.
 func (m *c32Model) checkStats(t *rapid.T, ring *storage.BucketRing, gte, lt int64, typ proto.StatisticType, series bool) (errored bool) {
-	res, err := ring.Statistics(&proto.StatisticsRequest{
-		StartTimeGte: gte, StartTimeLt: lt, Type: typ, GroupBy: proto.StatisticsGroupBy_Policy, TimeSeries: series,
-	})
-	if err != nil {
+	query := func(ts bool) ([]*proto.StatisticsResult, error) {
+		return ring.Statistics(&proto.StatisticsRequest{
+			StartTimeGte: gte, StartTimeLt: lt, Type: typ, GroupBy: proto.StatisticsGroupBy_Policy, TimeSeries: ts,
+		})
+	}
+	r1, err1 := query(series)
+	r2, err2 := query(!series)
+	if (err1 != nil) != (err2 != nil) {
+		t.Fatalf("Statistics(gte=%d lt=%d type=%v): time-series=%v returned err=%v but time-series=%v returned err=%v", gte, lt, typ, series, err1, !series, err2)
+	}
+	if err1 != nil {
 		return true
 	}
-	what := fmt.Sprintf("Statistics(gte=%d lt=%d type=%v series=%v)", gte, lt, typ, series)
-	seenPol := map[string]bool{}
-	if !series {
-		inner, outer := m.sumKeys(gte, lt)
-		pin, pout := m.polSums(inner, typ), m.polSums(outer, typ)
+	agg, ts := r1, r2
+	if series {
+		agg, ts = r2, r1
+	}
+	byName := func(what string, res []*proto.StatisticsResult) map[string]*proto.StatisticsResult {
+		out := map[string]*proto.StatisticsResult{}
 		for _, r := range res {
 			name := r.Policy.GetName()
-			if seenPol[name] {
+			if out[name] != nil {
 				t.Fatalf("%s: policy %s returned twice", what, name)
 			}
-			seenPol[name] = true
-			ga := c32At(r.AllowedIn, 0) + c32At(r.AllowedOut, 0)
-			gd := c32At(r.DeniedIn, 0) + c32At(r.DeniedOut, 0)
-			gp := c32At(r.PassedIn, 0) + c32At(r.PassedOut, 0)
-			if ga < pin[name].allow || ga > pout[name].allow || gd < pin[name].deny || gd > pout[name].deny || gp != 0 {
-				t.Fatalf("%s: policy %s allowed=%d denied=%d passed=%d; model requires allowed in [%d,%d], denied in [%d,%d], passed 0\nmodel:\n%s",
-					what, name, ga, gd, gp, pin[name].allow, pout[name].allow, pin[name].deny, pout[name].deny, m.dump())
+			known := false
+			for _, p := range c32Policies {
+				known = known || p == name
 			}
+			if !known {
+				t.Fatalf("%s: result for a policy %q that no accepted flow hit", what, name)
+			}
+			out[name] = r
 		}
-		for _, name := range []string{"p0", "p1"} {
-			if !seenPol[name] && (pin[name].allow != 0 || pin[name].deny != 0) {
+		return out
+	}
+
+	// ---- aggregated answer vs model
+	what := fmt.Sprintf("Statistics(gte=%d lt=%d type=%v series=false)", gte, lt, typ)
+	aggBy := byName(what, agg)
+	inner, outer := m.sumKeys(gte, lt)
+	pin, pout := m.polSums(inner, typ), m.polSums(outer, typ)
+	for _, name := range c32Policies {
+		r := aggBy[name]
+		if r == nil {
+			if !pin[name].zero() {
 				t.Fatalf("%s: policy %s missing; model has %+v\nmodel:\n%s", what, name, pin[name], m.dump())
 			}
+			continue
 		}
-		return false
+		sl := c32Slots(r)
+		for i := range sl {
+			if len(sl[i]) > 1 {
+				t.Fatalf("%s: policy %s %s has %d values in an aggregated answer", what, name, c32SlotNames[i], len(sl[i]))
+			}
+		}
+		got := c32PolAgg{c32At(sl[0], 0) + c32At(sl[1], 0), c32At(sl[2], 0) + c32At(sl[3], 0), c32At(sl[4], 0) + c32At(sl[5], 0)}
+		lo, hi := pin[name], pout[name]
+		if got.allow < lo.allow || got.allow > hi.allow || got.deny < lo.deny || got.deny > hi.deny || got.pass < lo.pass || got.pass > hi.pass {
+			t.Fatalf("%s: policy %s allowed=%d denied=%d passed=%d (in+out); model requires allowed in [%d,%d], denied in [%d,%d], passed in [%d,%d]\nmodel:\n%s",
+				what, name, got.allow, got.deny, got.pass, lo.allow, hi.allow, lo.deny, hi.deny, lo.pass, hi.pass, m.dump())
+		}
 	}
-	// Time series: one data point per bucket; each point must equal that bucket's model sums.
+
+	// ---- time series vs model: one data point per bucket, each equal to that bucket's model sums
+	what = fmt.Sprintf("Statistics(gte=%d lt=%d type=%v series=true)", gte, lt, typ)
+	tsBy := byName(what, ts)
 	seenX := map[string]map[int64]bool{}
-	for _, r := range res {
-		name := r.Policy.GetName()
-		if seenPol[name] {
-			t.Fatalf("%s: policy %s returned twice", what, name)
+	for _, name := range c32Policies {
+		r := tsBy[name]
+		if r == nil {
+			continue
 		}
-		seenPol[name] = true
 		seenX[name] = map[int64]bool{}
+		sl := c32Slots(r)
+		for i := range sl {
+			if len(sl[i]) != len(r.X) {
+				t.Fatalf("%s: policy %s has %d x values but %d %s values", what, name, len(r.X), len(sl[i]), c32SlotNames[i])
+			}
+		}
 		for i, x := range r.X {
 			if seenX[name][x] {
 				t.Fatalf("%s: policy %s has two data points for x=%d", what, name, x)
@@ -303,13 +387,12 @@ func (m *c32Model) checkStats(t *rapid.T, ring *storage.BucketRing, gte, lt int6
 				per[ki] = *v
 			}
 			want := m.polSums(per, typ)[name]
-			ga := c32At(r.AllowedIn, i) + c32At(r.AllowedOut, i)
-			gd := c32At(r.DeniedIn, i) + c32At(r.DeniedOut, i)
-			if ga != want.allow || gd != want.deny {
-				t.Fatalf("%s: policy %s point x=%d allowed=%d denied=%d; model bucket has allowed=%d denied=%d\nmodel:\n%s",
-					what, name, x, ga, gd, want.allow, want.deny, m.dump())
+			got := c32PolAgg{sl[0][i] + sl[1][i], sl[2][i] + sl[3][i], sl[4][i] + sl[5][i]}
+			if got != want {
+				t.Fatalf("%s: policy %s point x=%d allowed=%d denied=%d passed=%d (in+out); model bucket has allowed=%d denied=%d passed=%d\nmodel:\n%s",
+					what, name, x, got.allow, got.deny, got.pass, want.allow, want.deny, want.pass, m.dump())
 			}
-			if (ga != 0 || gd != 0) && !(x+m.interval > gte && x < lt) {
+			if !got.zero() && !(x+m.interval > gte && x < lt) {
 				t.Fatalf("%s: policy %s has a non-zero data point x=%d outside the requested range", what, name, x)
 			}
 		}
@@ -322,9 +405,33 @@ func (m *c32Model) checkStats(t *rapid.T, ring *storage.BucketRing, gte, lt int6
 		for ki, v := range m.buckets[s] {
 			per[ki] = *v
 		}
-		for name, want := range m.polSums(per, typ) {
-			if (want.allow != 0 || want.deny != 0) && !seenX[name][s] {
-				t.Fatalf("%s: policy %s has no data point for bucket %d; model has %+v\nmodel:\n%s", what, name, s, want, m.dump())
+		ps := m.polSums(per, typ)
+		for _, name := range c32Policies {
+			if !ps[name].zero() && !seenX[name][s] {
+				t.Fatalf("%s: policy %s has no data point for bucket %d; model has %+v\nmodel:\n%s", what, name, s, ps[name], m.dump())
+			}
+		}
+	}
+
+	// ---- aggregated == sum of the time series, slot by slot
+	for _, name := range c32Policies {
+		var a, s6 [6]int64
+		if r := aggBy[name]; r != nil {
+			for i, sl := range c32Slots(r) {
+				a[i] = c32At(sl, 0)
+			}
+		}
+		if r := tsBy[name]; r != nil {
+			for i, sl := range c32Slots(r) {
+				for _, v := range sl {
+					s6[i] += v
+				}
+			}
+		}
+		for i := range a {
+			if a[i] != s6[i] {
+				t.Fatalf("Statistics(gte=%d lt=%d type=%v) policy %s: aggregated %s=%d but the time series for the same range sums to %d (aggregated %v, time-series sums %v; slots %v)\nmodel:\n%s",
+					gte, lt, typ, name, c32SlotNames[i], a[i], s6[i], a, s6, c32SlotNames, m.dump())
 			}
 		}
 	}
@@ -478,10 +585,10 @@ func c32NewRing(c c32Cfg, clock *int64) *storage.BucketRing {
 func TestVerifC32Ring(t *testing.T) {
 	ev.Quiet()
 	rec := ev.New("C32", "ring",
-		"rapid state machine over storage.BucketRing (ring 5..12 buckets, interval 1/2/5/15 s, pushAfter 0..3, bucketsToAggregate 1..4: flows of 4 keys whose 7 statistics fields are drawn independently incl. zero (all-zero, single-field e.g. live-connections-only, one-directional, full), start times in the current/future/late/oldest buckets and outside history, single and multi rollovers with or without sink, sink attach (EmitFlowCollections) and detach, List/Statistics/NumFlows over aligned and unaligned ranges, full per-bucket sweep at the end. Non-trivial = a late flow landed in a not-yet-emitted past bucket, a rollover evicted a non-empty bucket and the sink received >=1 non-empty window; distinct = op-kind sequence",
+		"rapid state machine over storage.BucketRing (ring 5..12 buckets, interval 1/2/5/15 s, pushAfter 0..3, bucketsToAggregate 1..4: flows of 4 keys (single allow / deny policy hit; tiered pass-then-allow trace; the same plus a pending trace with a staged deny) whose 7 statistics fields are drawn independently incl. zero (all-zero, single-field e.g. live-connections-only, one-directional, full), start times in the current/future/late/oldest buckets and outside history, single and multi rollovers with or without sink, sink attach (EmitFlowCollections) and detach, List/Statistics/NumFlows over aligned and unaligned ranges, full per-bucket sweep at the end. Non-trivial = a late flow landed in a not-yet-emitted past bucket, a rollover evicted a non-empty bucket and the sink received >=1 non-empty window; distinct = op-kind sequence",
 		"acceptance is defined by the ring's own BeginningOfHistory/EndOfHistory accessors",
 		"for bounds that are not bucket aligned only the sandwich (fully covered buckets <= result <= touched buckets) is required",
-		"Statistics results are compared as allowed/denied totals (in+out) per policy for PacketCount, ByteCount and LiveConnectionCount, aggregated and as time series",
+		"Statistics results are compared as allowed/denied/passed totals (in+out) per policy for PacketCount, ByteCount and LiveConnectionCount, aggregated and as time series; and aggregated == sum of the time series for each of the six in/out slots separately (no in/out convention assumed)",
 		"a key whose accepted flows sum to zero in every field may or may not be listed")
 	defer rec.Write()
 	guard := &c32Guard{}
@@ -584,6 +691,15 @@ func TestVerifC32Ring(t *testing.T) {
 				m.buckets[b] = map[int]*c32Sums{}
 			}
 			classes["stats-"+statShape] = true
+			if ki >= 2 {
+				classes["trace-pass-then-allow"] = true
+				if st[0] != st[1] || st[2] != st[3] {
+					classes["trace-pass-asymmetric-in-out"] = true
+				}
+			}
+			if ki == 3 {
+				classes["trace-with-pending-hits"] = true
+			}
 			if m.buckets[b][ki] == nil {
 				m.buckets[b][ki] = &c32Sums{}
 				// the first update of a key in a bucket is the one that has to open the per-key window
